@@ -168,7 +168,10 @@ def service_cases(draw, tier="quick", http=False):
     if mode == 5 and valid_syns:
         uri = draw(st.sampled_from(valid_syns)) + draw(st.sampled_from(["1", "a/b", "0001"]))  # a synonym rendering
     elif mode <= 2 or mode == 5:
-        uri = draw(st.sampled_from(valid_ups)) + draw(st.sampled_from(IDENTS))
+        up = draw(st.sampled_from(valid_ups))
+        uri = up + draw(st.sampled_from(IDENTS))
+        if up and draw(st.integers(0, 5)) == 0:
+            uri = up + "1?seeAlso=" + draw(st.sampled_from([up, up, *valid_ups])) + "2"  # a URL inside the URL: the matched prefix occurs again
     elif mode == 3:
         uri = draw(st.sampled_from(["http://unknown.example/1", "urn:x:1", "https://h", "http://g.or"]))
     else:
